@@ -223,6 +223,14 @@ func c08Script(f []string) string {
 		case "call":
 			var args []string
 			name := strings.TrimSuffix(p[1], "!")
+			switch name {
+			case "sortNum":
+				name = "sort"
+				args = append(args, "function(x,y){return x-y}")
+			case "sortInf":
+				name = "sort"
+				args = append(args, "function(x,y){return x<y?-Infinity:(x>y?Infinity:0)}")
+			}
 			if c08CallbackMethods[name] {
 				if name != p[1] {
 					args = append(args, "null")
@@ -361,6 +369,11 @@ func genC08(c *h.Ctx) {
 	// 3. histories
 	for i := 0; i < c.N(30000, 600000); i++ {
 		genHistory(c)
+	}
+	// 5. sort: receivers on which §15.4.4.11 determines the result (no inherited index properties, extensible,
+	// all elements configurable and writable, comparefn a total order that only identifies identical values)
+	for i := 0; i < c.N(4000, 150000); i++ {
+		genSort(c)
 	}
 	// 4. length scenarios: non-configurable elements, non-writable length, then length changes
 	for i := 0; i < c.N(6000, 150000); i++ {
@@ -641,4 +654,45 @@ func genLengthScenario(c *h.Ctx) {
 		}
 	}
 	c.Add(line, "lenscenario")
+}
+
+// values with pairwise distinct ToString (so the default SortCompare only identifies identical values)
+var c08SortPool = []string{dTok(0), dTok(1), dTok(2), dTok(3), dTok(10), dTok(21), dTok(-1), dTok(100), dTok(2.5), sTok("a"), sTok("b"), sTok("ab"),
+	sTok(""), sTok("B"), sTok("11"), "T", "F", "n", dTok(math.NaN()), dTok(math.Inf(1))}
+var c08SortNums = []string{dTok(0), dTok(1), dTok(2), dTok(3), dTok(10), dTok(21), dTok(-1), dTok(100), dTok(2.5), dTok(-7.5), dTok(1e10), dTok(-1e-3)}
+
+func genSort(c *h.Ctx) {
+	r := c.Rng
+	n := r.Intn(9)
+	if r.Chance(8) {
+		n = 9 + r.Intn(8)
+	}
+	m := []string{"sort", "sort", "sortNum", "sortInf"}[r.Intn(4)]
+	pool := c08SortPool
+	if m != "sort" {
+		pool = c08SortNums
+	}
+	es := make([]string, n)
+	for i := range es {
+		switch {
+		case r.Chance(15):
+			es[i] = "_"
+		case r.Chance(12):
+			es[i] = "u"
+		default:
+			es[i] = pool[r.Intn(len(pool))]
+		}
+	}
+	line := "h a=" + strings.Join(es, ",") + " p="
+	if r.Chance(20) {
+		line += fmt.Sprintf(" del/%s", kTok(strconv.Itoa(r.Intn(n+1))))
+	}
+	if r.Chance(20) {
+		line += fmt.Sprintf(" put/%s/%s", kTok(strconv.Itoa(r.Intn(n+3))), pool[r.Intn(len(pool))])
+	}
+	line += " call/" + m + "//"
+	if r.Chance(25) {
+		line += " call/" + m + "//"
+	}
+	c.Add(line, "sort:"+m)
 }
